@@ -85,9 +85,15 @@ CONTRACTS = {
 def expect(label, fn, case=None):
     def post(args, kwargs, res, exc):
         self = tuple(args[0])
+        if isinstance(exc, AssertionError) or not C.is_perm(self):
+            CTX.count("skipped_outside_documented_domain")  # the library's own argument assertions
+            return
         try:
             want = fn(self, *args[1:], **kwargs)
         except Skip:
+            return
+        except (IndexError, TypeError, ValueError, AssertionError):
+            CTX.count("skipped_oracle_domain")
             return
         CTX.ev()
         ok = exc is None and norm(res) == want
